@@ -49,6 +49,7 @@ def dispatch (line : String) : String :=
     | "id3f" => id3fOp a
     | "apef" => apefOp a
     | "iff" => iffOp a
+    | "iffm" => iffmOp a
     | "dsf" => dsfOp a
     | "asf" => asfOp a
     | "ogginject" => ogginjectOp a
